@@ -196,4 +196,13 @@ theorem matrix_bounds (m : M3 K) (lo hi : V3 K) :
     show ∀ x y z : K, model3d.XYZ x y z = g3 ⟨x, y, z⟩ from fun _ _ _ => rfl, mulColumn3]
   simp [min3, max3]
 
+/-- `Matrix2Transform.ApplyBounds` (2-D): the two nested loops over `[]float64{min, max}`, unrolled, are the running
+min/max over the four corner images of the model (`Xf2.matrixBounds`). -/
+theorem matrix_bounds2 (m : M2 K) (lo hi : V2 K) :
+    model2d.Matrix2Transform_ApplyBounds ⟨gm2 m⟩ (g2 lo) (g2 hi) =
+      (g2 ((Xf2.matrix m).applyBounds lo hi).1, g2 ((Xf2.matrix m).applyBounds lo hi).2) := by
+  simp only [model2d.Matrix2Transform_ApplyBounds, Xf2.applyBounds, Xf2.matrixBounds, List.foldl,
+    show ∀ x y : K, model2d.XY x y = g2 ⟨x, y⟩ from fun _ _ => rfl, mulColumn2]
+  simp [min2, max2]
+
 end M3d.KernelsTie.Transform
